@@ -159,6 +159,26 @@ pub fn run_sweep(ctx: &Ctx, sw: &Sweep) -> Report {
             if rep.full() { return rep; }
         }
         rep.exhaustive.push("every truncation length of every generated archive, 4 layer combinations, both modes".into());
+        if sw.c05 {
+            // block-edge generator: many multi-block compressed archives repaired intact, so that the
+            // compressed size of a full block takes every residue modulo the fail-safe buffer
+            let n = ctx.budget(1500, 20000);
+            for i in 0..n {
+                let cfg = Cfg::make(&mut rng, if i % 2 == 0 { L_COMP } else { L_COMP | L_ENC });
+                let size = CONSTS.block + 1 + rng.below(2 * CONSTS.block as u64) as usize;
+                let class = [1u8, 2, 3, 4][(i % 4) as usize];
+                let mut src = rng.bytes(size, class);
+                // vary compressibility inside the block
+                let z = rng.below(size as u64 / 2 + 1) as usize;
+                for b in src.iter_mut().take(z) { *b = 0; }
+                let ops = vec![Op::Add { name: "e".into(), size: size as u64, src }, Op::Finalize];
+                let b = build(&cfg, &ops);
+                let l = b.bytes.len();
+                sweep_archive(sw, &mut rep, &mut model, &cfg, &ops, &b, &[l], 0);
+                if rep.full() { return rep; }
+            }
+            rep.count_n("block-edge-archives", n);
+        }
     } else {
         let narch = ctx.budget(8, 60);
         for i in 0..narch {
